@@ -53,9 +53,13 @@ def variable(rng, P, name="q", force_kinds=None, allow_two=True):
     return text, vtype, klist, groups
 
 
-def add_group_options(rng, text, P):
-    """centerToReference / rotateToReference (+ fittingGroup) or a dummy atom on one group of a distance-like component"""
-    opt = rng.rand()
+FORCED_OPT = {"fittingGroup": 0.1, "center": 0.3, "both": 0.3, "rotate": 0.3, "dummyAtom": 0.6}
+
+
+def add_group_options(rng, text, P, force=None):
+    """centerToReference / rotateToReference (+ fittingGroup) or a dummy atom on one group of a distance-like component;
+    `force` asks for one particular option (the caller retries until the component accepts it)"""
+    opt = rng.rand() if force is None else FORCED_OPT[force]
     if opt < 0.25 and "distance {" in text and "group1 {" in text:
         # a separate fitting group defines the frame in which group1 is seen
         fit = sorted(rng.sample(range(NAT), 5))
@@ -71,7 +75,7 @@ def add_group_options(rng, text, P):
         atoms = [int(x) - 1 for x in text[a + len(key):b].split()[1:]]
         if len(atoms) >= 3 or opt < 0.47:
             R = [[x + rng.uniform(-0.3, 0.3) for x in P[i]] for i in range(NAT)]
-            mode = rng.choice(["center", "both", "rotate"]) if len(atoms) >= 3 else "center"
+            mode = (force if force in ("center", "both", "rotate") else rng.choice(["center", "both", "rotate"])) if len(atoms) >= 3 else "center"
             o = "   centerToReference %s\n   rotateToReference %s\n   enableFitGradients on\n   refPositions %s\n" % (
                 "off" if mode == "rotate" else "on", "off" if mode == "center" else "on", refpos(R, atoms))
             text = text.replace(key + text[a + len(key):b + 1], key + text[a + len(key):b + 1] + o, 1)
@@ -112,17 +116,18 @@ def bias_for(rng, vtype, kinds, name="q"):
     return None, None
 
 
-MODELLED = ["distance", "distanceZ", "distanceZ_ref2", "distanceXY", "gyration", "angle"]
+MODELLED = ["distance", "distanceZ", "distanceZ_ref2", "distanceXY", "gyration", "angle", "inertia", "inertiaZ", "distanceInv", "coordNum"]
 
 
 def modelled_case(rng, kind, with_tf=False):
     """a single component of a kind the Lean model covers: value, atomic gradients (and total force) are predicted"""
     P = positions(rng)
     pool = list(range(NAT)); rng.shuffle(pool)
-    ng = {"distance": 2, "distanceZ": 2, "distanceZ_ref2": 3, "distanceXY": 2, "gyration": 1, "angle": 3}[kind]
+    ng = {"distance": 2, "distanceZ": 2, "distanceZ_ref2": 3, "distanceXY": 2, "gyration": 1, "angle": 3, "inertia": 1, "inertiaZ": 1,
+          "distanceInv": 2, "coordNum": 2}[kind]
     groups = []
     for i in range(ng):
-        k = rng.randint(3, 6) if kind == "gyration" else rng.randint(1, 3)
+        k = rng.randint(3, 6) if kind in ("gyration", "inertia", "inertiaZ") else rng.randint(1, 3)
         groups.append(sorted(pool[:k])); pool = pool[k:]
     axis = [rng.uniform(-1, 1) for _ in range(3)]
     coeff = rng.choice([1.0, -1.0, 0.5, 2.0]); expn = rng.choice([1, 1, 2, 3])
@@ -130,13 +135,23 @@ def modelled_case(rng, kind, with_tf=False):
     if with_tf:
         expn = 1; coeff = rng.choice([1.0, -1.0])
     names = {"distance": ("group1", "group2"), "distanceZ": ("main", "ref"), "distanceZ_ref2": ("main", "ref", "ref2"),
-             "distanceXY": ("main", "ref"), "gyration": ("atoms",), "angle": ("group1", "group2", "group3")}[kind]
+             "distanceXY": ("main", "ref"), "gyration": ("atoms",), "angle": ("group1", "group2", "group3"), "inertia": ("atoms",),
+             "inertiaZ": ("atoms",), "distanceInv": ("group1", "group2"), "coordNum": ("group1", "group2")}[kind]
     key = {"distanceZ_ref2": "distanceZ"}.get(kind, kind)
     t = "colvar {\n name q\n%s %s {\n" % (" outputTotalForce on\n" if with_tf else "", key)
     for nm, g in zip(names, groups):
         t += " " + grp(nm, g)
-    if kind in ("distanceZ", "distanceXY"):
+    if kind in ("distanceZ", "distanceXY", "inertiaZ"):
         t += "   axis %s\n" % vec(axis)
+    iexp = rng.choice([2, 4, 6]); r0 = rng.uniform(2.5, 5.0); en = rng.choice([4, 6]); ed = rng.choice([8, 12]); tol = rng.choice([0.0, 0.0, 0.001, 0.02])
+    extra_def = ""
+    if kind == "distanceInv":
+        t += "   exponent %d\n" % iexp; extra_def = " exp=%d" % iexp
+    if kind == "coordNum":
+        t += "   cutoff %s\n   expNumer %d\n   expDenom %d\n" % (num(r0), en, ed)
+        if tol > 0:
+            t += "   tolerance %s\n   pairListFrequency 1\n" % num(tol)
+        extra_def = " r0=%s en=%d ed=%d tol=%s" % (fbits(float(num(r0))), en, ed, fbits(float(num(tol))))
     if one:
         t += "   oneSiteTotalForce on\n"
     t += "   componentCoeff %s\n   componentExp %d\n }\n}\n" % (num(coeff), expn)
@@ -145,8 +160,8 @@ def modelled_case(rng, kind, with_tf=False):
     for a in range(NAT):
         L.append("m.mass %d %s" % (a, fbits(masses[a])))
     L.append(cfg(t)); cl = len(L)
-    L.append("G.def q %s c=%s n=%d one=%d axis=%s %s" % (kind, fbits(coeff), expn, int(one), ",".join(fbits(x) for x in axis),
-                                                       " ".join("g=" + ",".join(map(str, g)) for g in groups)))
+    L.append("G.def q %s c=%s n=%d one=%d axis=%s%s %s" % (kind, fbits(coeff), expn, int(one), ",".join(fbits(x) for x in axis), extra_def,
+                                                         " ".join("g=" + ",".join(map(str, g)) for g in groups)))
     L.append("g.collect q")
     for s_ in range(3):
         P = [[x + rng.uniform(-0.3, 0.3) for x in p] for p in P]
@@ -165,11 +180,28 @@ def gen(rng, tier):
     n = 60 if tier == "quick" else 600
     # eigenvector: its default fit to the reference neglects the derivative of the rotation on purpose (documented; excluded by the property)
     kinds_all = [x for x in sorted(COMPONENTS) if x != "eigenvector"]
+    # a block of cases enumerates the group options on the components whose value depends on where a whole group is
+    # (a fit that moves a group matters only then), each under a bias that certainly applies a force
+    opt_plan = []
+    for comp in ["distance", "distanceZ", "distanceXY", "distanceVec", "angle", "coordNum", "distanceInv", "dipoleAngle"]:
+        for mode in ["fittingGroup", "center", "both", "rotate", "dummyAtom"]:
+            if mode == "dummyAtom" and comp not in ("distanceZ", "distanceXY"):
+                continue
+            if mode == "fittingGroup" and comp != "distance":
+                continue
+            opt_plan.append((comp, mode))
+    rng.shuffle(opt_plan)
+    opt_plan = opt_plan[:18] if tier == "quick" else opt_plan * 4
+    # make sure every mode is present in the quick selection
+    want = {"fittingGroup": "fittingGroup", "center": "fit_center_only", "both": "fit_rotate", "rotate": "fit_rotate_only", "dummyAtom": "dummyAtom"}
     k = 0
     while len(cases) < n:
-        kind0 = kinds_all[k % len(kinds_all)]; k += 1
+        forced = opt_plan.pop() if opt_plan else None
+        kind0 = forced[0] if forced else kinds_all[k % len(kinds_all)]
+        if not forced:
+            k += 1
         P = positions(rng)
-        text, vtype, klist, groups = variable(rng, P, force_kinds=[kind0] if rng.rand() < 0.8 else kinds_all)
+        text, vtype, klist, groups = variable(rng, P, force_kinds=[kind0] if (forced or rng.rand() < 0.8) else kinds_all, allow_two=not forced)
         if vtype == "vector":      # cartesian: harmonic on a generic vector
             natoms = len(groups[0])
             btext, bkind = "harmonic {\n name b\n colvars q\n centers (%s)\n forceConstant 1.2\n}\n" % ", ".join(num(0.1 * i) for i in range(3 * natoms)), "harmonic"
@@ -177,7 +209,20 @@ def gen(rng, tier):
             btext, bkind = bias_for(rng, vtype, klist)
         if btext is None:
             continue
-        text, gopt, fit = add_group_options(rng, text, P)
+        if forced:
+            ok_ = False
+            for _try in range(30):
+                t2, gopt, fit = add_group_options(rng, text, P, force=forced[1])
+                if gopt == want[forced[1]]:
+                    text = t2; ok_ = True
+                    break
+                text, vtype, klist, groups = variable(rng, P, force_kinds=[kind0], allow_two=False)
+            if not ok_:
+                continue
+            if vtype == "scalar":
+                btext, bkind = "harmonic {\n name b\n colvars q\n centers %s\n forceConstant %s\n}\n" % (num(rng.uniform(-1, 1)), num(rng.uniform(0.5, 3.0))), "harmonic"
+        else:
+            text, gopt, fit = add_group_options(rng, text, P)
         cell = rng.rand() < 0.3
         L = ["m.new %d" % NAT, "M.noclock"]
         if cell:
@@ -240,11 +285,15 @@ def vals(out, ln, tag):
     return None if v is None else [tok_val(t)[1] for t in v]
 
 
+REJECTED = []
+
+
 def oracle(case, out):
     m = case["meta"]
     if "kinds" not in m or m.get("modelled"):
         return []
     if vals(out, m["cfg"], "rc") != [0] or vals(out, m["bcfg"], "rc") != [0]:
+        REJECTED.append("+".join(m["kinds"]) + "/" + m["group_option"] + "/" + m["bias"])
         return []          # this combination is rejected by the library (counted in the evidence as not evaluated)
     e0 = vals(out, m["base"], "energy")
     if e0 is None:
